@@ -72,3 +72,20 @@ Definition history : list gmsg :=
     GExit (Trader 1) 1 (5 * P18) [];
     GExitExternOut (Trader 0) 1 1 63384 (100 * P18);
     GJoin (Trader 2) 99 1000 [] ].
+
+Lemma nonvacuous_witness :
+  Inv PM g0 /\ Forall gmsg_wf history /\
+  let s := grun PM g0 history in
+  map (fun d => bal (rs PM s) (PoolAcc 1) d) [0; 1; 2; 3] = [5311826; 6526590; 7700000; 777] /\
+  option_map (fun p => (gp_liq p, gp_shares p)) (get_pool (GP PM) (pools (rs PM s)) 1)
+    = Some ([(0, 5311826); (1, 6526590); (2, 7700000)], 104534793991599966858) /\
+  direct PM s 1 3 = 777 /\ supply PM s 101 = 104534793991599966858 /\
+  supply PM s 0 = 3000000000 /\ bal (rs PM s) Collector 0 = 96 /\ bal (rs PM s) Community 5 = 2000.
+Proof.
+  split.
+  - apply Inv_genesis; try reflexivity. intros. unfold g0, share_denom. cbn [supply].
+    assert (X : 100 + id <? 100 = false) by (apply Z.ltb_ge; lia). rewrite X. reflexivity.
+  - split.
+    + repeat constructor; eexists; reflexivity.
+    + vm_compute. repeat split; reflexivity.
+Qed.
